@@ -204,10 +204,11 @@ func c16BridgeMain(t *testing.T) {
 	run.Rule("trial = real Bridge over net.Pipe endpoints with counting cloud-control fake x transfer sizes per direction in {0,1,4K,100K,1M+17,2.5M} x path in {none, source-eof, both-eof, parent-cancel, mid-transfer} x K in {2,4,12} Close callers from a spin barrier x yields inside GetPortMapping; distinct = (path,K,size classes,overlap observed)")
 	r := run.Rand("trials")
 	n := run.Pick(400, 4000)
-	paths := []string{"none", "source-eof", "source-eof", "both-eof", "parent-cancel", "mid-transfer"}
+	paths := []string{"none", "source-eof", "source-eof", "both-eof", "parent-cancel", "mid-transfer", "cancel-while-trickling"}
 	ks := []int{2, 4, 12}
 	run.Floor("overlap_runs", 100)
 	run.Floor("runs_with_traffic_reported", 100)
+	run.Floor("trickle_runs_ctx_exit_with_pending_batch", 10)
 	scope := []string{"tunnox-core/internal/protocol/session/tunnel", "tunnox-core/internal/stream"}
 
 	for trial := 0; trial < n && run.Violations() < 20 && run.Counter("leak_violations") < 3; trial++ {
@@ -265,10 +266,74 @@ func c16BridgeMain(t *testing.T) {
 		go c16Feed(srcFar, 1, 1, &hw, &srcFed)
 		go c16Feed(tgtFar, 1, 1, &hw, &tgtFed)
 		waitArrived(1, 1)
+		if path == "cancel-while-trickling" {
+			// A chatty peer keeps sending 1-3 byte chunks (one copy-loop iteration each);
+			// the parent context is cancelled at chunk cancelAt while it keeps sending. The
+			// copy loop looks at its context only every 10000 iterations, so it leaves
+			// through its context-cancelled exit with a pending (< 1 MB) batch counter. The
+			// closers are released raceAfter chunks later, or as soon as the sender fails
+			// (the bridge closed itself after noticing the cancellation).
+			s2t, t2s = 0, 0
+			cancelAt := 1000 + r.Intn(12000)
+			raceAfter := []int{0, 3000, 12000, 30000}[r.Intn(4)]
+			total := cancelAt + raceAfter + 1000
+			if total < 26000 {
+				total = 26000
+			}
+			trickleFar, trickleFed := srcFar, &srcFed
+			if r.Intn(2) == 0 {
+				trickleFar, trickleFed = tgtFar, &tgtFed
+			}
+			desc["trickle_chunks"], desc["cancel_at_chunk"], desc["release_closers_after_chunks"] = total, cancelAt, raceAfter
+			desc["trickle_direction_source_to_target"] = trickleFar == srcFar
+			sizes := make([]int, 64)
+			for i := range sizes {
+				sizes[i] = 1 + r.Intn(3)
+			}
+			raceNow := make(chan struct{})
+			var once sync.Once
+			hw.Add(1)
+			go func() {
+				defer hw.Done()
+				defer once.Do(func() { close(raceNow) })
+				buf := []byte{'x', 'y', 'z'}
+				for i := 0; i < total; i++ {
+					if i == cancelAt {
+						cancel()
+					}
+					if i == cancelAt+raceAfter {
+						once.Do(func() { close(raceNow) })
+					}
+					w, err := trickleFar.Write(buf[:sizes[i%len(sizes)]])
+					trickleFed.Add(int64(w))
+					if err != nil {
+						return
+					}
+				}
+			}()
+			select {
+			case <-raceNow:
+			case <-time.After(30 * time.Second):
+				watchdog = true
+			}
+			run.Count("trickle_runs", 1)
+			if raceAfter >= 12000 && !watchdog {
+				// the sender got past a 10000-iteration boundary after the cancellation, so
+				// the copy loop has left through its context branch (pending batch < 1 MB,
+				// > 0) and the bridge is closing itself; wait (bounded) until it says so
+				dl := time.Now().Add(5 * time.Second)
+				for !br.IsClosed() && time.Now().Before(dl) {
+					runtime.Gosched()
+				}
+				if br.IsClosed() {
+					run.Count("trickle_runs_ctx_exit_with_pending_batch", 1)
+				}
+			}
+		}
 		hw.Add(2)
 		go c16Feed(srcFar, s2t, 32*1024, &hw, &srcFed)
 		go c16Feed(tgtFar, t2s, 32*1024, &hw, &tgtFed)
-		if path != "mid-transfer" {
+		if path != "mid-transfer" && path != "cancel-while-trickling" {
 			// steady state: everything that was fed has arrived at the other far end
 			waitArrived(int64(s2t)+1, int64(t2s)+1)
 		}
@@ -348,7 +413,12 @@ func c16BridgeMain(t *testing.T) {
 		under := repS < movedS || repR < movedR
 		if over {
 			run.Count("runs_over_reported", 1)
-			run.Violation("C16:bridge|traffic-reported-twice", obs)
+			if br.GetBytesSent() > movedS || br.GetBytesReceived() > movedR {
+				// the bridge's own byte counter already exceeds what was forwarded
+				run.Violation("C16:bridge|traffic-over-reported|byte-counter-inflated|path="+path, obs)
+			} else {
+				run.Violation("C16:bridge|traffic-reported-twice", obs)
+			}
 		}
 		if under {
 			run.Count("runs_under_reported", 1)
